@@ -601,6 +601,10 @@ type EncCfg struct {
 	NoPC     bool   `json:"no_pc,omitempty"` // direct-oracle corpus only: the caller flag is on but the record comes with no frame (WriteThru with pc 0, a skip count beyond the stack)
 	TagWidth int    `json:"tag_width"`
 	MinWidth int    `json:"min_width"`
+	// a width outside 0..5 handed to SetLevelOutputWidth AFTER TagWidth was set: the setter ignores it (the tag keeps TagWidth)
+	WidthAfter int `json:"width_after,omitempty"`
+	// a minimal width below 16 handed to SetMessageMinimalWidth AFTER MinWidth was set: ignored as well
+	MinAfter int `json:"min_after,omitempty"`
 }
 
 type EncRec struct {
@@ -662,6 +666,12 @@ func (rec EncRec) emit() [][]byte {
 	}
 	slog.SetLevelOutputWidth(c.TagWidth)
 	slog.SetMessageMinimalWidth(c.MinWidth)
+	if c.WidthAfter != 0 {
+		slog.SetLevelOutputWidth(c.WidthAfter)
+	}
+	if c.MinAfter != 0 {
+		slog.SetMessageMinimalWidth(c.MinAfter)
+	}
 	var l *slog.Entry
 	if c.Name == "" {
 		l = slog.VerifEntryOf(slog.New())
@@ -684,7 +694,14 @@ func (rec EncRec) emit() [][]byte {
 	if c.Caller && !c.NoPC {
 		pc = encCaller.PC
 	}
-	l.WriteThru(nil, slog.Level(c.Level), fixedTime, pc, rec.Msg, attrsGo(rec.Attrs))
+	func() {
+		defer func() {
+			if e := recover(); e != nil { // a panic while formatting: nothing was delivered (the oracles report the missing record)
+				events = append(events, event{Kind: "panic", Payload: []byte(fmt.Sprint(e))})
+			}
+		}()
+		l.WriteThru(nil, slog.Level(c.Level), fixedTime, pc, rec.Msg, attrsGo(rec.Attrs))
+	}()
 	var out [][]byte
 	for _, ev := range events {
 		if ev.Kind == "write" {
